@@ -20,6 +20,8 @@ for line in sys.stdin:
     n = os.path.basename(r['dir'].rstrip('/'))
     tag = os.path.basename(os.path.dirname(r['dir']))
     rnd = tag.split('-')[0].replace('out', 'n')       # out3 -> n3, out4 -> n4
+    if rnd == 'n6':
+        n = n.lstrip('n')
     dst = '/verif/neutral/%s-%s-%s' % (prop, rnd, n)
     os.makedirs(dst, exist_ok=True)
     shutil.copy(os.path.join(r['dir'], 'patch.diff'), dst)
